@@ -28,7 +28,7 @@ inductive Cause
   | duplicateDecl      -- the same inline function type written twice in one namespace: identical declaration, identical file
   | namespaceDropped   -- equal names in different namespaces; the generator's file name has no namespace component
   | baseSuffix         -- `x` marked `+<target>` is generated as `x_base`, next to a declaration really called `x_base`
-  | conversion         -- different names that the identifier style maps to one file name (`foo_bar` / `foo__bar`)
+  | conversion         -- different names (of declarations or of namespace components) that the identifier style maps to one file name (`foo_bar` / `foo__bar`, `Net.x` / `net.x`)
   | concatenation      -- Objective-C: namespace and name are concatenated without a separator
 deriving DecidableEq, Repr, Inhabited
 
@@ -39,9 +39,20 @@ def Cause.key : Cause → String
   | .conversion => "conversion"
   | .concatenation => "concatenation"
 
+/-- generators whose file names carry the namespace (as directories, a package path or a prefix) -/
+def keepsNamespace : G → Bool
+  | .cpp => true | .cppcli => true | .java => true | .objc => true
+  | _ => false
+
 def cause (g : G) (d₁ d₂ : Decl) : Cause :=
   if d₁.ns == d₂.ns && d₁.name == d₂.name then .duplicateDecl
-  else if d₁.name == d₂.name then .namespaceDropped
+  else if d₁.name == d₂.name then
+    -- equal names in different namespaces: a generator that keeps the namespace only maps them to one path when its
+    -- identifier style maps the *namespace components* to the same spelling (`Net` / `net`, `ui_kit` / `uiKit`), or,
+    -- in Objective-C, when different component lists concatenate to one prefix (`a.b` / `ab`)
+    if keepsNamespace g then
+      (if g == .objc && d₁.ns.length != d₂.ns.length then .concatenation else .conversion)
+    else .namespaceDropped
   else if baseName g d₁ == baseName g d₂ then .baseSuffix
   else if d₁.ns == d₂.ns then .conversion
   else if g == .objc then .concatenation
